@@ -97,8 +97,10 @@ Lookup(r) ==
                 hit == {d \in cached[k][e] : d.x \in S} IN
             IF missing = {}
               THEN rq' = [rq EXCEPT ![r].st = "ret", ![r].full = TRUE, ![r].hit = hit, ![r].hmeta = meta[k][e]]
-              ELSE rq' = [rq EXCEPT ![r].st = "fetch", ![r].hit = hit, ![r].hmeta = IF OnFetchError = "error" THEN NoMeta ELSE meta[k][e], ![r].missing = missing,
-                                    ![r].ep = TRUE]
+              \* (what only the non-"error" variants read is not recorded otherwise: fewer states)
+              ELSE rq' = [rq EXCEPT ![r].st = "fetch", ![r].hit = hit, ![r].missing = missing,
+                                    ![r].hmeta = IF OnFetchError = "error" THEN NoMeta ELSE meta[k][e],
+                                    ![r].ep = (OnFetchError # "error")]
        ELSE rq' = [rq EXCEPT ![r].st = "fetch", ![r].missing = S]
   /\ UNCHANGED <<asg, tv, cvars, gen, mt, floor, nfetch, dirty, outs, last>>
 
